@@ -14,7 +14,7 @@ type Item struct {
 	List   []*Item
 }
 
-func Str(b []byte) *Item       { return &Item{Str: b} }
+func Str(b []byte) *Item        { return &Item{Str: b} }
 func List(items ...*Item) *Item { return &Item{IsList: true, List: items} }
 
 var (
